@@ -86,12 +86,19 @@ def alone(doc):
 
 
 
-def doc_file(i):
+def doc_file(i, pretty=False):
+    """REPRESENTATION: every document exists as a compact one-line file and as an indented file with CRLF line ends,
+    reversed key order, extra keys and trailing blank lines; the pretty form is handed over as a pathlib.Path."""
     if 'dir' not in _TMP or not os.path.isdir(_TMP['dir']):
         _TMP['dir'] = tempfile.mkdtemp(prefix='vf_c16_')
         for k, doc in enumerate(DOCS):
             with open(os.path.join(_TMP['dir'], f'd{k}.json'), 'w', encoding='utf-8') as fh:
                 json.dump(D.to_json(doc), fh)
+            with open(os.path.join(_TMP['dir'], f'd{k}_pretty.json'), 'w', encoding='utf-8', newline='') as fh:
+                fh.write(json.dumps(D.to_json(doc, None, 'reversed+extra'), indent=2).replace('\n', '\r\n') + '\r\n\r\n')
+    if pretty:
+        import pathlib  # pylint: disable=import-outside-toplevel
+        return pathlib.Path(_TMP['dir']) / f'd{i}_pretty.json'
     return os.path.join(_TMP['dir'], f'd{i}.json')
 
 
@@ -146,7 +153,7 @@ def run_history(ops):
                 elif kind in ('load', 'reload'):
                     if kind == 'load' or slot not in slots:
                         slots[slot] = DznJsonAst()
-                    path = doc_file(op[2])
+                    path = doc_file(op[2], pretty=(slot % 2 == 1 and kind == 'reload'))
                     if kind == 'load':
                         shared = os.path.join(os.path.dirname(path), 'shared.json')
                         shutil.copyfile(path, shared)
